@@ -260,6 +260,12 @@ def features(case, ref):
     lines_st = {int(a[1:].split("w")[0]) // 64 for a in accs if a[0] == "S"}
     lines_all = [int(a[1:].split("w")[0]) // 64 for a in accs]
     f["line_conflict"] = any(lines_all.count(l) > 1 for l in lines_st)
+    lines_ld = {int(a[1:].split("w")[0]) // 64 for a in accs if a[0] == "L"}
+    f["ls_line_conflict"] = bool(lines_st & lines_ld) or len(accs) >= 3000   # the driver reports at most 3000 accesses
+    # a load/store instruction of the text that the reference run never executes can still run speculatively
+    # (wrong path) at an address the reference does not know
+    done = set(path)
+    f["mem_unexec"] = any(m in ("sb", "sh", "sw", "lb", "lh", "lw") and k not in done for k, (m, _, _) in enumerate(ins))
     f["steps"] = ref.get("steps", 0)
     f["ends_with_ret"] = ref["stop"] == "ret"
     return f
